@@ -326,6 +326,9 @@ pub struct Writer<W: io::Write> {
     inner: csv::Writer<W>,
     delimiter: char,
     terminator: String,
+    /// Separator of multiple values of the same key; `None` if the format
+    /// repeats the key for each value instead (GFF2, GTF2).
+    value_delimiter: Option<char>,
 }
 
 impl Writer<fs::File> {
@@ -339,7 +342,7 @@ impl Writer<fs::File> {
 impl<W: io::Write> Writer<W> {
     /// Write to a given writer.
     pub fn new(writer: W, fileformat: GffType) -> Self {
-        let (delim, termi, _) = fileformat.separator();
+        let (delim, termi, vdelim) = fileformat.separator();
 
         Writer {
             inner: csv::WriterBuilder::new()
@@ -348,6 +351,11 @@ impl<W: io::Write> Writer<W> {
                 .from_writer(writer),
             delimiter: delim as char,
             terminator: String::from_utf8(vec![termi]).unwrap(),
+            value_delimiter: if vdelim == 0u8 {
+                None
+            } else {
+                Some(vdelim as char)
+            },
         }
     }
 
@@ -356,8 +364,21 @@ impl<W: io::Write> Writer<W> {
         let attributes = if !record.attributes.is_empty() {
             record
                 .attributes
-                .iter()
-                .map(|(a, b)| format!("{}{}{}", a, self.delimiter, b))
+                .iter_all()
+                .map(|(key, values)| match self.value_delimiter {
+                    // key=value1,value2
+                    Some(value_delimiter) => format!(
+                        "{}{}{}",
+                        key,
+                        self.delimiter,
+                        values.iter().join(&value_delimiter.to_string())
+                    ),
+                    // key value1; key value2
+                    None => values
+                        .iter()
+                        .map(|value| format!("{}{}{}", key, self.delimiter, value))
+                        .join(&self.terminator),
+                })
                 .join(&self.terminator)
         } else {
             "".to_owned()
